@@ -1236,6 +1236,84 @@ def unit_limits(rec: Rec) -> None:
 # ----------------------------------------------------------------------------------------------------------------------
 
 
+def check_raw(rec: Rec, case: dict) -> None:
+    verdict, stats = run_walk(case["raw"], case["ctype"], case["api"], case["sizes"], case["plan"])
+    if verdict == "hang":
+        raise Violation("walk-hangs-after-eof", f"reader still blocked after EOF; case={case}")
+    if verdict.startswith("budget"):
+        raise Violation("walk-does-not-terminate", f"{verdict}: more than {stats['budget']} stream operations on {len(case['raw'])} bytes; case={case}")
+    rec.case(case, stats["parts"] > 0, [verdict, "api:" + case["api"], "raw"])
+
+
+def unit_atheris(rec: Rec, shard: int, runs: int) -> None:
+    """Coverage-guided campaign on the reader (thorough tier): valid bodies as the starting corpus."""
+    import os
+    import shutil
+    import subprocess
+    import sys
+    import tempfile
+
+    from hypothesis import HealthCheck, given, seed as hseed, settings
+
+    verif = os.path.dirname(os.path.dirname(os.path.abspath(__file__)))
+    deps = os.path.join(verif, ".deps")
+    target = os.path.join(verif, "vlib", "fuzz_multipart.py")
+    corpus = tempfile.mkdtemp(prefix="c19_corpus_")
+    crashdir = tempfile.mkdtemp(prefix="c19_crash_")
+    try:
+        samples: list[bytes] = []
+
+        @settings(max_examples=30, database=None, deadline=None, suppress_health_check=list(HealthCheck))
+        @hseed(rec.seed * 1000 + shard)
+        @given(writers())
+        def collect(spec):
+            spec = dict(spec, boundary="b")
+            loop = new_loop()
+            try:
+                asyncio.set_event_loop(loop)
+                try:
+                    w = build_writer(spec)
+                    cap = CapWriter()
+                    loop.drive(w.write(cap))
+                    samples.append(cap.data)
+                except Exception:  # noqa: BLE001
+                    pass
+            finally:
+                asyncio.set_event_loop(None)
+                loop.shutdown()
+
+        if shard % 2:
+            collect()
+        for i, body in enumerate(samples):
+            with open(os.path.join(corpus, f"s{i}"), "wb") as f:
+                f.write(bytes([i % 7, 0, i % 5, 3]) + body[:2000])
+        env = dict(os.environ, PYTHONPATH=os.pathsep.join([os.environ.get("VERIF_REPO", "/repo"), verif]), FUZZ_CRASH_DIR=crashdir)
+        cmd = [sys.executable, target, corpus, f"-runs={runs}", f"-seed={rec.seed * 100 + shard + 1}", "-max_len=600", "-timeout=30",
+               f"-artifact_prefix={crashdir}/", "-print_final_stats=1"]
+        r = subprocess.run(cmd, env=env, capture_output=True, text=True, timeout=3600)
+        execs = 0
+        for line in r.stderr.splitlines():
+            if "stat::number_of_executed_units" in line:
+                execs = int(line.split(":")[-1])
+        if "No module named 'atheris'" in r.stderr:
+            rec.extra["atheris"] = "unavailable"
+            return
+        rec.count(execs)
+        rec.extra["atheris_execs"] = rec.extra.get("atheris_execs", 0) + execs
+        from vlib import jsonx
+
+        for fn in sorted(os.listdir(crashdir)):
+            if fn.endswith(".json"):
+                doc = jsonx.loads(open(os.path.join(crashdir, fn)).read())
+                rec.fail(doc["key"], doc["msg"], doc["case"])
+        if r.returncode != 0 and not os.listdir(crashdir):
+            rec.extra["atheris_rc"] = r.returncode
+            rec.extra["atheris_tail"] = r.stderr[-400:]
+    finally:
+        shutil.rmtree(corpus, ignore_errors=True)
+        shutil.rmtree(crashdir, ignore_errors=True)
+
+
 def units(tier: str, seed: int) -> list[Unit]:
     us = []
     nr = 150 if tier == "quick" else 6000
@@ -1248,11 +1326,16 @@ def units(tier: str, seed: int) -> list[Unit]:
     for i in range(4):
         us.append(Unit(f"mutation{i}", unit_mutation, {"n": nm, "offset": 200 + i}))
     us.append(Unit("limits", unit_limits, {}))
+    if tier == "thorough":
+        for sh in range(4):
+            us.append(Unit(f"atheris{sh}", unit_atheris, {"shard": sh, "runs": 60000}))
     return us
 
 
 def replay(rec: Rec, case: dict) -> None:
-    if "limit" in case and "writer" not in case:
+    if "raw" in case:
+        check_raw(rec, case)
+    elif "limit" in case and "writer" not in case:
         check_limit(rec, case)
     elif "fields" in case:
         check_form(rec, case)
